@@ -113,6 +113,7 @@ def run(ck):
     ck.floor("CMP", "statement/proof zips in credential and request verification", nz, 4)
     narrowing_len_sweep(ck, c, re.compile(r"concordium_base::id::(chain|identity_provider|utils|identity_attributes_credentials)::"),
                         re.compile(r"(verify|verifier|validate|check)[a-z_0-9]*(::\{closure#\d+\})*$"))
+    conditional_transcript_sweep(ck, crate("rs", "concordium_base"), re.compile(r"concordium_base::id::(chain|identity_provider|utils|identity_attributes_credentials)::"), floor=3)
     eq_polarity_sweep(ck, crate("rs", "concordium_base"), re.compile(r"concordium_base::id::(chain|identity_provider|utils|identity_attributes_credentials)::"), re.compile(r"(verify|verifier|validate|check)[a-z_0-9]*(::\{closure#\d+\})*$"))
     rejecting_checks_floor(ck, crate("rs", "concordium_base"), re.compile(r"concordium_base::id::(chain|identity_provider|utils|identity_attributes_credentials)::"), re.compile(r"(verify|verifier|validate|check|extract_commit_message)[a-z_0-9]*(::\{closure#\d+\})*$"), "C08")
 
